@@ -84,6 +84,21 @@ func c17Alphabet() []c17op {
 				}})
 		}
 	}
+	// 48-byte digests whose CONTENT looks special: the digest of no data, all zero, printable hex digits only (further
+	// ones in the single-request section below). A digest is a digest
+	for _, idx := range []int{1} {
+		e0 := sha512.Sum384(nil)
+		for _, dv := range []struct {
+			name string
+			b    []byte
+		}{{"sha384-of-nothing", e0[:]}, {"all-zero", make([]byte, 48)}, {"48-hex-digits-as-text", []byte(hexs(a[:24]))}} {
+			idx, dv := idx, dv
+			ops = append(ops, c17op{name: fmt.Sprintf("digest(idx=%d,len=48,%s)", idx, dv.name), valid: true, index: idx, digest: dv.b,
+				call: func(t *world.TSM, _ *c17bufs) error {
+					return rtmr.ExtendDigestClient(t, idx, append([]byte(nil), dv.b...))
+				}})
+		}
+	}
 	for _, idx := range []int{-1, 0, 1, 2, 3, 4} {
 		for _, h := range c17Hashes() {
 			for li, lg := range c17Logs {
@@ -317,6 +332,38 @@ func runC17(r *mc.Run) {
 			r.Eval(id, true, "event-log-size:"+out)
 		})
 		r.SectionDone(mc.Section{Name: "event-log-sizes", Evaluations: int64(done), Exhaustive: done == len(sizes)*2, Note: fmt.Sprintf("%d lengths x {log, twin with the last byte flipped}", len(sizes))})
+	}
+	// single valid requests with digests whose content looks special, on every register
+	{
+		e1, e2 := sha512.Sum384([]byte("\n")), sha512.Sum384(make([]byte, 48))
+		specials := []struct {
+			name string
+			b    []byte
+		}{{"sha384-of-LF", e1[:]}, {"sha384-of-48-zero-bytes", e2[:]}, {"all-ff", bytes.Repeat([]byte{0xff}, 48)}, {"48-spaces", bytes.Repeat([]byte{' '}, 48)},
+			{"48-NUL-then-nothing", make([]byte, 48)}, {"text-with-LF-at-the-end", append(bytes.Repeat([]byte{'a'}, 47), '\n')}, {"starts-with-0x", append([]byte("0x"), bytes.Repeat([]byte{'1'}, 46)...)}}
+		for idx := 0; idx < 4; idx++ {
+			for _, sp := range specials {
+				id := fmt.Sprintf("special-digest/idx=%d/%s", idx, sp.name)
+				if !r.Want(id) {
+					continue
+				}
+				op := c17op{name: fmt.Sprintf("digest(idx=%d,len=48,%s)", idx, sp.name), valid: true, index: idx, digest: sp.b}
+				t := world.NewTSM()
+				var err error
+				func() { defer world.Recover(&err); err = rtmr.ExtendDigestClient(t, idx, append([]byte(nil), sp.b...)) }()
+				out := c17Judge(r, id, op, err, t.Log, "", t)
+				var want [4][48]byte
+				h := sha512.New384()
+				h.Write(want[idx][:])
+				h.Write(sp.b)
+				copy(want[idx][:], h.Sum(nil))
+				if err == nil && t.Regs != want {
+					r.Violate("register-differs-from-extend-chain:special-digest", id, "after a valid extend the register is not the extend of the given digest", nil)
+					out = "bad-register"
+				}
+				r.Eval(id, true, "special-digest:"+out)
+			}
+		}
 	}
 	// invalid requests with event logs of every size class: the register index and the hash algorithm are judged
 	// whatever the length of the log
